@@ -618,4 +618,57 @@ def fromUriF (T : Tab) : Nat → Str → Except PyExc Path
 
 def fromUri (T : Tab) (s : Str) : Except PyExc Path := fromUriF T (s.length + 1) s
 
+/-! ## glue: argument validation, `__str__`, the namespace setter, the CIMObject header -/
+
+/-- mirrors to_wbem_uri: `if format not in ('standard', 'canonical', 'cimobject', 'historical'): raise ValueError`
+    (the tuple is the extracted `Generated.uriFormats`; position = constructor of `Fmt`) -/
+def fmtOfName (name : String) : Except PyExc Fmt :=
+  match Pywbem.Generated.uriFormats.idxOf? name with
+  | some 0 => .ok .standard
+  | some 1 => .ok .canonical
+  | some 2 => .ok .cimobject
+  | some 3 => .ok .historical
+  | _ => .error .valueError
+
+/-- CIMInstanceName.to_wbem_uri(format=name) with the format given as the string the caller passes -/
+def toWbemUri (T : Tab) (name : String) (p : Path) : Except PyExc Str :=
+  match fmtOfName name with
+  | .ok f => .ok (toUri T f p)
+  | .error e => .error e
+
+/-- CIMClassName.to_wbem_uri(format=name) -/
+def toWbemUriClass (T : Tab) (name : String) (p : ClassPath) : Except PyExc Str :=
+  match fmtOfName name with
+  | .ok f => .ok (toUriClass T f p)
+  | .error e => .error e
+
+/-- mirrors CIMInstanceName.__str__ / CIMClassName.__str__ -/
+def pathStr (T : Tab) (p : Path) : Str := toUri T .historical p
+def classPathStr (T : Tab) (p : ClassPath) : Str := toUriClass T .historical p
+
+/-- Python `s.strip('/')` -/
+def stripSlashes (s : Str) : Str := ((s.dropWhile (· == '/')).reverse.dropWhile (· == '/')).reverse
+
+/-- mirrors the `namespace` setter of CIMInstanceName / CIMClassName: `None` stays, otherwise `strip('/')` -/
+def nsSetter (ns : Option Str) : Option Str := ns.map stripSlashes
+
+/-- mirrors the constructor CIMInstanceName(classname, keybindings, host, namespace) as far as the URI functions see it:
+    the namespace goes through its setter, the keybindings through the NocaseDict copy -/
+def mkPath (T : Tab) (cls : Str) (kbs : List (Str × KeyVal)) (host ns : Option Str) : Path :=
+  .mk host (nsSetter ns) cls (Keys.ofList (kbs.foldl (fun acc kv => ncSet T kv.1 kv.2 acc) []))
+
+/-- what get_cimobject_header is given -/
+inductive HeaderArg where
+  | text (s : Str)
+  | cls (p : ClassPath)
+  | inst (p : Path)
+  | other
+
+/-- mirrors pywbem/_cim_http.py: get_cimobject_header -/
+def cimObjectHeader (T : Tab) : HeaderArg → Except PyExc Str
+  | .text s => .ok s
+  | .cls p => .ok (toUriClass T .cimobject p)
+  | .inst p => .ok (toUri T .cimobject p)
+  | .other => .error .typeError
+
 end Pywbem.Model.Uri
